@@ -38,6 +38,12 @@ type Net struct {
 	DialLatency func(from, to string) time.Duration
 	Conns       []*ConnRecord
 	Refused     int
+	// AcceptReorder > 0: when several connections wait in a listener's queue, one Accept in so many
+	// hands out a tape-chosen one of them instead of the oldest (TCP queues a connection when its
+	// handshake completes: one whose last handshake segment was lost and sent again is queued
+	// behind connections dialled after it). Reordered counts how often that happened.
+	AcceptReorder int
+	Reordered     int
 }
 
 // ConnRecord remembers every connection ever opened in the run.
@@ -109,8 +115,14 @@ func (l *listener) Accept() (net.Conn, error) {
 			return nil, &net.OpError{Op: "accept", Net: "sim", Err: net.ErrClosed}
 		}
 		if len(l.backlog) > 0 {
-			c := l.backlog[0]
-			l.backlog = l.backlog[1:]
+			pick := 0
+			if l.n.AcceptReorder > 0 && len(l.backlog) > 1 && rt.Choose(rt.SNet, l.n.AcceptReorder) == 0 {
+				pick = 1 + rt.Choose(rt.SNet, len(l.backlog)-1)
+				l.n.Reordered++
+				rt.Reach("net.accept-queue-reordered")
+			}
+			c := l.backlog[pick]
+			l.backlog = append(l.backlog[:pick:pick], l.backlog[pick+1:]...)
 			c.Accepted = true
 			rt.Progress()
 			c.BytesBeforeAccept = c.Server.Pending()
